@@ -1,5 +1,195 @@
-"""Verus back end (filled in for C15)."""
+"""Verus back end: splice VERBATIM function bodies of the real source under the contracts in verus/tt_contracts.rs."""
+import json
+import os
+import re
+import subprocess
+import time
+
+import inject
+
+HERE = os.path.dirname(os.path.abspath(__file__))
+VERIF = os.path.dirname(HERE)
+SRC_FILE = "weechess-engine/src/searcher.rs"
+
+
+class SpliceError(Exception):
+    pass
+
+
+def _item_text(lines, header):
+    s, e = inject.find_scope(lines, header)
+    return lines[s:e + 1]
+
+
+def _split_fn(fn_lines):
+    """-> (signature text without the opening brace, inner body lines)"""
+    text = "\n".join(fn_lines)
+    i = text.index("{")
+    sig = text[:i].rstrip()
+    j = text.rindex("}")
+    return sig, text[i + 1:j].strip("\n")
+
+
+def _name_return(sig):
+    m = re.search(r"\)\s*->\s*(.+)$", sig, re.S)
+    if not m:
+        return sig
+    ty = m.group(1).strip()
+    return sig[:m.start()] + ") -> (r: %s)" % ty
+
+
+def build(src_root):
+    """Returns (text, fn_ranges: {name: (first_line, last_line)}, spliced: {name: body_text})"""
+    with open(os.path.join(src_root, SRC_FILE)) as f:
+        lines = f.read().split("\n")
+    with open(os.path.join(VERIF, "verus", "tt_prelude.rs")) as f:
+        out = f.read().rstrip("\n").split("\n")
+    with open(os.path.join(VERIF, "verus", "tt_contracts.rs")) as f:
+        tpl = f.read().split("\n")
+    spliced = {}
+    i = 0
+    while i < len(tpl):
+        ln = tpl[i]
+        if ln.startswith("//@ITEM "):
+            out.extend(_item_text(lines, ln[len("//@ITEM "):].strip()))
+        elif ln.startswith("//@IMPL "):
+            out.append(ln[len("//@IMPL "):].strip() + " {")
+        elif ln.startswith("//@ENDIMPL"):
+            out.append("}")
+        elif ln.startswith("//@FN "):
+            scope, name = [x.strip() for x in ln[len("//@FN "):].split("::")]
+            s, e = inject.find_scope(lines, scope)
+            k = inject.find_fn(lines, name, s, e)
+            a, b = inject.fn_extent(lines, k)
+            sig, body = _split_fn(lines[a:b + 1])
+            clauses, prologue, epilogue = [], [], []
+            cur = clauses
+            i += 1
+            while not tpl[i].startswith("//@BODY"):
+                if tpl[i].startswith("//@PROLOGUE"):
+                    cur = prologue
+                else:
+                    cur.append(tpl[i])
+                i += 1
+            if i + 1 < len(tpl) and tpl[i + 1].startswith("//@EPILOGUE"):
+                i += 2
+                while not tpl[i].startswith("//@END"):
+                    epilogue.append(tpl[i])
+                    i += 1
+            out.append("    " + _name_return(sig.strip()))
+            out.extend(clauses)
+            out.append("    {")
+            out.extend(prologue)
+            out.append(body)
+            out.extend(epilogue)
+            out.append("    }")
+            spliced["%s::%s" % (scope.replace("impl ", ""), name)] = body
+        elif ln.startswith("//@") or ln.startswith("// "):
+            pass
+        else:
+            out.append(ln)
+        i += 1
+    out.append("} // verus!")
+    out.append("fn main() {}")
+    # function line ranges of the generated file
+    out = "\n".join(out).split("\n")
+    ranges = {}
+    for idx, l in enumerate(out):
+        m = re.match(r"^\s*(pub\s+)?(open\s+|closed\s+|uninterp\s+)?(proof\s+|spec\s+)?fn\s+(\w+)", l)
+        if m:
+            try:
+                a, b = inject.fn_extent(out, idx)
+            except inject.LostAnchor:
+                a, b = idx, idx
+            ranges.setdefault(m.group(4), []).append((a + 1, b + 1))
+    return "\n".join(out), ranges, spliced
 
 
 def run(repo, src, obs, scratch, log):
-    return []
+    t0 = time.time()
+    results = []
+
+    def all_status(status, detail, out=""):
+        return [{"ob": o, "status": status, "detail": detail,
+                 "res": {"wall": time.time() - t0, "out": out, "parsed": {"n_checks": None, "time": None}}}
+                for o in obs]
+
+    try:
+        text, ranges, spliced = build(src)
+    except (inject.LostAnchor, ValueError, IndexError) as ex:
+        return all_status("undecided", "lost anchor while splicing the Verus file: %r" % (ex,))
+    # the spliced bodies must be byte-identical to /repo's text (the copy is add-only, re-extract from /repo to be sure)
+    try:
+        _, _, spliced_repo = build(repo)
+    except Exception as ex:
+        return all_status("undecided", "lost anchor in /repo: %r" % (ex,))
+    if spliced != spliced_repo:
+        return all_status("undecided", "verbatim-body comparison failed")
+    vdir = os.path.join(scratch, "verus")
+    os.makedirs(vdir, exist_ok=True)
+    path = os.path.join(vdir, "tt.rs")
+    with open(path, "w") as f:
+        f.write(text)
+    p = subprocess.run(["verus", "tt.rs", "--output-json", "--time", "--triggers-mode", "silent", "--multiple-errors", "50"], cwd=vdir,
+                       capture_output=True, text=True, timeout=1200)
+    out = p.stdout + "\n" + p.stderr
+    m = re.search(r"\{\s*\"(func-details|verification-results)\".*\}\s*$", p.stdout, re.S)
+    js = {}
+    if m:
+        try:
+            js = json.loads(p.stdout[p.stdout.index("{"):])
+        except Exception:
+            js = {}
+    vr = js.get("verification-results", {})
+    smt_ms = js.get("times-ms", {}).get("smt", {}).get("total")
+    total_ms = js.get("times-ms", {}).get("total")
+    if vr.get("encountered-vir-error") or (vr.get("encountered-error") and "verified" not in vr):
+        return all_status("undecided", "Verus could not process the spliced file (a body left Verus' subset or no longer "
+                          "type-checks against the contract signature):\n" + p.stderr[-1500:], out)
+    # locate every error in the generated file
+    err_lines = []
+    for em in re.finditer(r"^error(?:\[\w+\])?: (.*)\n\s+--> tt\.rs:(\d+):", p.stderr, re.M):
+        err_lines.append((em.group(1), int(em.group(2))))
+    rlimit = "Resource limit" in p.stderr or "rlimit" in p.stderr
+
+    def fn_of(line):
+        best = None
+        for name, rs in ranges.items():
+            for a, b in rs:
+                if a <= line <= b:
+                    if best is None or (b - a) < best[1]:
+                        best = (name, b - a)
+        return best[0] if best else None
+
+    failed_fns = {}
+    for msg, ln in err_lines:
+        failed_fns.setdefault(fn_of(ln), []).append("%s (generated line %d)" % (msg, ln))
+    canaries = [n for n in ranges if n.startswith("canary_")]
+    missing_canary = [c for c in canaries if c not in failed_fns]
+    n_verified = vr.get("verified")
+    for o in obs:
+        res = {"wall": time.time() - t0, "out": out[-12000:],
+               "parsed": {"n_checks": n_verified, "time": (smt_ms or total_ms or 0) / 1000.0}}
+        if o.get("canary"):
+            if missing_canary:
+                results.append({"ob": o, "status": "undecided",
+                                "detail": "vacuity alarm: canaries that did not fail: %s" % missing_canary, "res": res})
+            else:
+                results.append({"ob": o, "status": "discharged",
+                                "detail": "all %d must-fail canaries fail" % len(canaries), "res": res})
+            continue
+        bad = {f: failed_fns[f] for f in o["verus_fns"] if f in failed_fns}
+        if bad:
+            if rlimit:
+                results.append({"ob": o, "status": "undecided", "detail": "Verus rlimit: %r" % bad, "res": res})
+            else:
+                results.append({"ob": o, "status": "violation",
+                                "detail": "Verus obligation failed: " + "; ".join(
+                                    "%s: %s" % (k, ", ".join(v)) for k, v in bad.items()), "res": res})
+        elif n_verified is None:
+            results.append({"ob": o, "status": "undecided", "detail": "no result from Verus", "res": res})
+        else:
+            results.append({"ob": o, "status": "discharged",
+                            "detail": "Verus: %s verified in file, none of %s failed" % (n_verified, o["verus_fns"]),
+                            "res": res})
+    return results
